@@ -20,6 +20,24 @@ func (a *acc) run(vals []int, wg *sync.WaitGroup) {
 
 func square(x int, out chan<- int) { out <- x * x }
 
+type task struct{ id, n int }
+
+// prun has a pointer receiver: started on a range value variable it keeps the
+// address of that iteration's variable.
+func (t *task) prun(res []int, wg *sync.WaitGroup) {
+	defer wg.Done()
+	s := 0
+	for i := 0; i <= t.n; i++ {
+		s += t.id*10 + i
+	}
+	res[t.id] = s
+}
+
+func byAddr(t *task, res []int, wg *sync.WaitGroup) {
+	defer wg.Done()
+	res[t.id] += 1000 * (t.id + 1)
+}
+
 // job has a value receiver that the method uses as scratch space: every call of
 // a method value must work on its own copy.
 type job struct{ id, acc int }
@@ -79,6 +97,26 @@ func Run() {
 		s += <-out
 	}
 	host.Emit(1, s)
+	// range value variables whose address escapes to goroutines; no function
+	// literal in the loop bodies
+	tasks := make([]task, n)
+	for i := range tasks {
+		tasks[i] = task{id: i, n: m + i}
+	}
+	rres := make([]int, n)
+	for _, t := range tasks {
+		wg.Add(1)
+		go t.prun(rres, &wg)
+	}
+	wg.Wait()
+	for _, t := range tasks {
+		wg.Add(1)
+		go byAddr(&t, rres, &wg)
+	}
+	wg.Wait()
+	for _, v := range rres {
+		host.Emit(3, v)
+	}
 	// one stored method value called by every goroutine, twice each
 	shared := job{id: 7}.work
 	ls := &list{1, &list{2, &list{3, nil}}}
